@@ -276,12 +276,28 @@ func (r *Run) Fail(rule, sig, format string, a ...any) {
 	r.mu.Lock()
 	defer r.mu.Unlock()
 	r.nviol++
-	if len(r.viol) < 8 {
+	own := strings.HasPrefix(rule, r.Case.Prop+".") || strings.HasPrefix(rule, "SIM.")
+	if len(r.viol) < 8 || (own && len(r.viol) < 16) {
 		r.viol = append(r.viol, Violation{Rule: rule, Sig: sig, Detail: d, AtNs: int64(r.Now()), Step: r.Step})
 	}
 }
 
 func (r *Run) Failed() bool { r.mu.Lock(); defer r.mu.Unlock(); return r.nviol > 0 }
+
+// Stop reports whether the run should end early: an oracle of the property under
+// check (or of the harness itself) has failed. Failures of other properties'
+// rules are recorded but do not cut the run short, so that they cannot mask the
+// rules this check is responsible for.
+func (r *Run) Stop() bool {
+	r.mu.Lock()
+	defer r.mu.Unlock()
+	for _, v := range r.viol {
+		if strings.HasPrefix(v.Rule, r.Case.Prop+".") || strings.HasPrefix(v.Rule, "SIM.") {
+			return true
+		}
+	}
+	return false
+}
 
 // FailedFor reports whether a rule of the given property has failed.
 func (r *Run) FailedFor(prop string) bool {
